@@ -882,8 +882,20 @@ class _Parser(barectf_config_parse_common._Parser):
             except _ConfigurationParseError as exc:
                 _append_error_ctx(exc, f'Data stream type `{dst_name}`')
 
+        # Also resolve the field type aliases themselves so that an
+        # alias of a nonexistent field type alias, or a cycle amongst
+        # field type aliases which nothing uses, doesn't go unnoticed.
+        prop_name = '$field-type-aliases'
+
+        try:
+            for alias in list(ft_aliases_node):
+                self._resolve_ft_alias_from(ft_aliases_node, ft_aliases_node, alias)
+        except _ConfigurationParseError as exc:
+            exc._append_ctx(f'`{prop_name}` property')
+            _append_error_ctx(exc, 'Trace type')
+
         # remove the (now unneeded) `$field-type-aliases` property
-        del self._trace_type_node['$field-type-aliases']
+        del self._trace_type_node[prop_name]
 
     # Applies field type inheritance to all field type nodes found in
     # the trace type node.
